@@ -121,6 +121,9 @@ impl Property for C17 {
     fn id(&self) -> &'static str {
         "C17"
     }
+    fn fuzzable(&self) -> bool {
+        true
+    }
     fn rule(&self) -> String {
         "cases: even tapes -> compiler outputs for generated programs; odd tapes -> independently encoded models (domain B of C03 without raw CR/LF in strings, by construction; strings with quotes, #, :, commas, leading/trailing blanks, `slot 3`/`method #1 args:0` look-alikes, non-ASCII; empty classes; methods > 10000 instructions). The Display rendering (and for a sample the real `fml disassemble FILE` / stdin) is parsed by an independent listing parser and the rebuilt program (constants, per-method instruction sequences from Code[S..=E], globals, entry) must equal what the independent reader decodes from the file; indices consecutive, every code line owned by exactly one method. non-trivial: >= 2 methods and >= 1 string containing a listing delimiter; distinct by image".into()
     }
